@@ -251,7 +251,7 @@ func main() {
 	codecgen.Init()
 	rng := lib.NewRng(run.Seed)
 	st := lib.NewStats("C04", "every tx type (44) x payload version {0,1,2,3,4,200} x tx version {0 for types<9, 9, random 10..255}: payload filled by reflection (every slice 0..3 elements, byte strings 0/1/2/20/21/33 long, boundary integers), 0..3 attributes/inputs/outputs (all 8 output payload types)/programs; blocks of 0..4 such transactions. nontrivial = serialized, decoded and compared; distinct by bytes")
-	sh := &lib.Shards{Dir: run.Out, Imports: "From ELA Require Import corr.C04_corr.", CaseType: "C04_corr.case",
+	sh := &lib.Shards{Dir: run.Out, Imports: "From ELA Require Import corr.C04_corr model.C04_Proposal.", CaseType: "C04_corr.case",
 		Mismatch: "C04_corr.mismatches", Scope: "N", PerShard: 60}
 	id := 0
 	skipped := 0
@@ -434,6 +434,43 @@ func main() {
 			st.Count(fmt.Sprintf("gen:%d:%d", kind, n), true, "sized-field")
 		}
 	}
+	// CRCProposal, field by field: every proposal type x payload version 0/1
+	for rep := 0; rep < run.N(1, 6); rep++ {
+		for _, pt := range codecgen.ProposalTypes {
+			for _, pv := range []byte{0, 1} {
+				p0 := codecgen.RandomPayload(rng, common2.CRCProposal, pv).(*payload.CRCProposal)
+				p0.ProposalType = pt
+				pb, err := ser(func(w *bytes.Buffer) error { return p0.Serialize(w, pv) })
+				if err != nil || len(pb) > 700 {
+					continue
+				}
+				id++
+				in := map[string]interface{}{"proposal_type": uint16(pt), "payload_version": pv, "payload_bytes": hx(pb)}
+				p1 := &payload.CRCProposal{}
+				r := bytes.NewReader(pb)
+				if err := p1.Deserialize(r, pv); err != nil || r.Len() != 0 {
+					in["err"] = fmt.Sprint(err)
+					st.Fail("crcproposal:decode", "a serialized CRCProposal does not decode (completely)", in)
+					st.Count(hx(pb), true, "decode-failed")
+					continue
+				}
+				pb1, _ := ser(func(w *bytes.Buffer) error { return p1.Serialize(w, pv) })
+				p2 := &payload.CRCProposal{}
+				err2 := p2.Deserialize(bytes.NewReader(pb1), pv)
+				if !bytes.Equal(pb, pb1) || err2 != nil || !semEq(reflect.ValueOf(p1), reflect.ValueOf(p2)) {
+					st.Fail("crcproposal:stable", "decode(encode p) is not a fixed point", in)
+				}
+				// fields the proposal type serializes must survive from the generated value
+				if d := proposalFieldsEq(p0, p1, pv); d != "" {
+					in["field"] = d
+					st.Fail("crcproposal:fields", "decode(encode p) differs from p in "+d, in)
+				}
+				sh.Add(fmt.Sprintf("CProp %d %d %s %s", id, pv, coqProposal(p1, pv), lib.CoqBytes(pb)))
+				st.LogCase(run.Out, id, in)
+				st.Count("prop:"+hx(pb), true, "crcproposal")
+			}
+		}
+	}
 	// blocks
 	for i := 0; i < run.N(5, 80); i++ {
 		b := codecgen.RandomBlock(rng, []int{0, 1, 2, 4}[rng.Intn(4)])
@@ -495,4 +532,130 @@ func main() {
 		nsh++
 	}
 	st.Write(run.Out)
+}
+
+func proposalKind(t payload.CRCProposalType) int {
+	switch t {
+	case payload.ChangeProposalOwner:
+		return 1
+	case payload.CloseProposal:
+		return 2
+	case payload.SecretaryGeneral:
+		return 3
+	case payload.MainChainUpgradeCode, payload.DIDUpgradeCode, payload.ETHUpgradeCode:
+		return 4
+	case payload.RegisterSideChain:
+		return 5
+	case payload.ReserveCustomID:
+		return 6
+	case payload.ReceiveCustomID:
+		return 7
+	case payload.ChangeCustomIDFee:
+		return 8
+	}
+	return 0
+}
+
+func coqStrs(ss []string) string {
+	var xs []string
+	for _, s := range ss {
+		xs = append(xs, lib.CoqBytes([]byte(s)))
+	}
+	return lib.CoqList(xs)
+}
+
+// coqProposal prints the C04_Proposal.proposal record of a decoded CRCProposal.
+func coqProposal(p *payload.CRCProposal, pv byte) string {
+	B := lib.CoqBytes
+	k := proposalKind(p.ProposalType)
+	draft := "None"
+	if pv >= 1 && k != 4 {
+		draft = "(Some " + B(p.DraftData) + ")"
+	}
+	var body string
+	switch k {
+	case 0:
+		var bs []string
+		for _, b := range p.Budgets {
+			bs = append(bs, fmt.Sprintf("(%d, %d, %d)", b.Type, b.Stage, uint64(b.Amount)))
+		}
+		body = fmt.Sprintf("(PNormal %s %s)", lib.CoqList(bs), B(p.Recipient[:]))
+	case 1:
+		body = fmt.Sprintf("(PChangeOwner %s %s %s %s)", B(p.TargetProposalHash[:]), B(p.NewRecipient[:]), B(p.NewOwnerKey), B(p.NewOwnerSignature))
+	case 2:
+		body = fmt.Sprintf("(PClose %s)", B(p.TargetProposalHash[:]))
+	case 3:
+		body = fmt.Sprintf("(PSecretary %s %s %s)", B(p.SecretaryGeneralPublicKey), B(p.SecretaryGeneralDID[:]), B(p.SecretaryGeneraSignature))
+	case 4:
+		u := p.UpgradeCodeInfo
+		f := 0
+		if u.ForceUpgrade {
+			f = 1
+		}
+		body = fmt.Sprintf("(PUpgrade %d %s %s %s %d)", u.WorkingHeight, B([]byte(u.NodeVersion)), B([]byte(u.NodeDownLoadUrl)), B(u.NodeBinHash[:]), f)
+	case 5:
+		s := p.SideChainInfo
+		body = fmt.Sprintf("(PRegisterSideChain %s %d %s %d %d %s)", B([]byte(s.SideChainName)), s.MagicNumber, B(s.GenesisHash[:]), uint64(s.ExchangeRate), s.EffectiveHeight, B([]byte(s.ResourcePath)))
+	case 6:
+		body = fmt.Sprintf("(PReserveID %s)", coqStrs(p.ReservedCustomIDList))
+	case 7:
+		body = fmt.Sprintf("(PReceiveID %s %s)", coqStrs(p.ReceivedCustomIDList), B(p.ReceiverDID[:]))
+	default:
+		body = fmt.Sprintf("(PChangeFee %d %d)", uint64(p.CustomIDFeeRateInfo.RateOfCustomIDFee), p.CustomIDFeeRateInfo.EIDEffectiveHeight)
+	}
+	return fmt.Sprintf("(mkProposal %d %s %s %s %s %s %s %s %s)", uint16(p.ProposalType), B([]byte(p.CategoryData)), B(p.OwnerKey), B(p.DraftHash[:]),
+		draft, body, B(p.Signature), B(p.CRCouncilMemberDID[:]), B(p.CRCouncilMemberSignature))
+}
+
+// proposalFieldsEq compares, between a generated proposal and its decode, the
+// fields its proposal type serializes.
+func proposalFieldsEq(a, b *payload.CRCProposal, pv byte) string {
+	eq := func(x, y interface{}) bool { return semEq(reflect.ValueOf(x), reflect.ValueOf(y)) }
+	k := proposalKind(a.ProposalType)
+	if a.ProposalType != b.ProposalType || a.CategoryData != b.CategoryData || !eq(a.OwnerKey, b.OwnerKey) || a.DraftHash != b.DraftHash ||
+		!eq(a.Signature, b.Signature) || a.CRCouncilMemberDID != b.CRCouncilMemberDID || !eq(a.CRCouncilMemberSignature, b.CRCouncilMemberSignature) {
+		return "common fields"
+	}
+	if pv >= 1 && k != 4 && !eq(a.DraftData, b.DraftData) {
+		return "DraftData"
+	}
+	switch k {
+	case 0:
+		if !eq(a.Budgets, b.Budgets) || a.Recipient != b.Recipient {
+			return "Budgets/Recipient"
+		}
+	case 1:
+		if a.TargetProposalHash != b.TargetProposalHash || a.NewRecipient != b.NewRecipient || !eq(a.NewOwnerKey, b.NewOwnerKey) || !eq(a.NewOwnerSignature, b.NewOwnerSignature) {
+			return "TargetProposalHash/NewRecipient/NewOwnerKey/NewOwnerSignature"
+		}
+	case 2:
+		if a.TargetProposalHash != b.TargetProposalHash {
+			return "TargetProposalHash"
+		}
+	case 3:
+		if !eq(a.SecretaryGeneralPublicKey, b.SecretaryGeneralPublicKey) || a.SecretaryGeneralDID != b.SecretaryGeneralDID || !eq(a.SecretaryGeneraSignature, b.SecretaryGeneraSignature) {
+			return "SecretaryGeneral fields"
+		}
+	case 4:
+		if !eq(a.UpgradeCodeInfo, b.UpgradeCodeInfo) {
+			return "UpgradeCodeInfo"
+		}
+	case 5:
+		if !eq(a.SideChainInfo, b.SideChainInfo) {
+			return "SideChainInfo"
+		}
+	case 6:
+		if !eq(a.ReservedCustomIDList, b.ReservedCustomIDList) {
+			return "ReservedCustomIDList"
+		}
+	case 7:
+		if !eq(a.ReceivedCustomIDList, b.ReceivedCustomIDList) || a.ReceiverDID != b.ReceiverDID {
+			return "ReceivedCustomIDList/ReceiverDID"
+		}
+	case 8:
+		if !eq(a.CustomIDFeeRateInfo, b.CustomIDFeeRateInfo) {
+			return "CustomIDFeeRateInfo"
+		}
+	}
+	return ""
 }
